@@ -14,6 +14,12 @@ TCPServer / H11Protocol|H2Protocol / WSStream / wsproto stack, application = acc
 
   families: single (1 message, full alphabet), pair (2 messages), triple (3 messages), ping (pings), and
   sched (Explorer A: frames as separate reads injected mid-flight, bounds M/S/R) for the schedule quantifier.
+  pings  SEVERAL pings with distinct payloads ("p", "q"; thorough also 1 and 3 pings, payloads "p", "", "r") at EVERY
+         combination of positions (both before the same frame included) among the frames of {a message cut in two,
+         a small message followed by an oversize one, no message at all}, and the client's Close(1000) travels in the
+         SAME byte stream behind them - so, over all 2-way splits, the unsplit stream and one byte per read, two or
+         three pings share one read (one TCP segment / one HTTP/2 DATA frame), a ping shares its read with the Close
+         frame, and a ping shares its read with the message that exceeds the limit.
   big    payload sizes around the 7-bit / 16-bit / 64-bit length encodings (limit 1 MiB).
   multi  TWO connections in ONE world (one worker process: the server's module-level and per-process state is
          shared exactly as in production, and nothing survives from an earlier execution into the history that is
@@ -72,7 +78,9 @@ from mc.x_c10c11_run import case_execute, make_guard_client, make_window_client
 ID = "C10"
 LEVEL = "model_checking"
 TECHNIQUE = ("bounded exhaustive enumeration of client WebSocket sessions (message sequence x fragmentation x "
-             "ping placement x read segmentation x compression x carrier x worker) executed on the real server stack "
+             "ping placement (one ping, and several pings with distinct payloads coalesced with each other, with the oversize "
+             "message and with the client's Close into one read) x read segmentation x compression x carrier x worker) "
+             "executed on the real server stack "
              "under the virtual-time engines; two-connection histories in one world (sequential and every interleaving "
              "of the two sessions' messages, mixed carriers and compression); padded HTTP/2 DATA beyond the initial "
              "flow-control window; messages arriving while the handshake response is in flight; plus deviation-bounded "
@@ -89,6 +97,9 @@ ASSUMPTIONS = [
     "frame arrival is interleaved with the server's own progress within the deviation bounds",
     "pongs are demanded only for pings that precede the point at which the accumulated size can exceed the limit; "
     "echoes are demanded in full only when no message is oversize",
+    "pings: every ping precedes the client's Close frame (a ping behind the Close is outside the property); as the Close "
+    "may share a read with the messages, the echoes the client still sees are judged as a prefix (delivery to the "
+    "application is judged in full)",
     "multi: two connections stand for any number; every message is answered before the next one is sent "
     "(interleaving at message granularity, at quiescence)",
     "pad: the client keeps to its flow-control window (a padded DATA frame is sent only when the stream and the "
@@ -100,15 +111,19 @@ ASSUMPTIONS = [
     "it yet (its own reading is stalled); the arrival is placed in that window by a guard on the application's accept",
 ]
 BOUNDS_DOC = {
-    "quick": "messages<=2 (+3 unfragmented), K<=2 frames/message, <=1 ping, all 2-way splits + bytewise; sched M<=1,S<=1; "
+    "quick": "messages<=2 (+3 unfragmented), K<=2 frames/message, <=1 ping, all 2-way splits + bytewise; pings: 2 pings at every "
+             "pair of positions x 3 message sets (mid cut) with the Close in the stream, all 2-way splits + bytewise; "
+             "sched M<=1,S<=1; "
              "multi 2 connections x 2 messages each (all 6 merges, seq with/without overlap), 3 compression pairs x 4 carrier "
              "pairs; pad 260 frames x 255 padding; early 2 messages",
     "thorough": "messages<=3, K<=3 frames/message (pairs K<=2, triples mid cut only), <=2 pings, all 2-way splits + bytewise; "
+                "pings: 1, 2 and 3 pings at every combination of positions x 5 message sets (mid cut) with the Close in the "
+                "stream; "
                 "sched asyncio M<=2, trio M<=1 with R<=1; multi 2 connections x 3 messages each (all 20 merges), 4 compression "
                 "pairs x 4 carrier pairs, and the two sessions scheduled against each other M<=1,S<=1; pad 260 x 255 "
                 "and 40 x {0, 1}; early 2 and 3 messages",
 }
-BUDGET = {"quick": 100, "thorough": 1150}
+BUDGET = {"quick": 300, "thorough": 1150}
 
 L = 4
 BIG_L = 1 << 20  # the 'big' family: payload sizes around the 7-bit / 16-bit / 64-bit length encodings of RFC 6455 5.2
@@ -130,6 +145,10 @@ R8 = [T("a"), T("é"), T("abcd"), T("abcde"), B(b""), B(b"\x00"), B(b"abcd"), B(
 R6 = [T("a"), T("abcd"), T("abcde"), B(b"\x00"), B(b"abcd"), B(b"abcde")]
 R4 = [T("abcd"), T("abcde"), B(b"\x00"), B(b"abcde")]
 PING_MSGS = [T("é€"), B(b"\x01\x02\x03"), T("abcde")]
+
+# the 'pings' family: (messages, K, cut mode); a fragmented message, an oversize message behind a small one, no message
+PINGS_SPECS = [((T("é€"),), 2, "mid"), ((T("a"), T("abcde")), 1, "all"), ((), 1, "all")]
+PINGS_SPECS_THOROUGH = [((B(b"abcde"),), 2, "mid"), ((T("abcd"), B(b"\x00")), 2, "mid")]
 
 BIG_SIZES = (125, 126, 127, 65535, 65536, 70000)
 ENGINES = ("asyncio", "trio")
@@ -158,6 +177,15 @@ def ping_options(nframes: int, mode: str) -> Tuple[Tuple[Tuple[int, bytes], ...]
     """Ping placements: tuples of (position, payload); position p = before frame p (p = nframes: after all)."""
     if mode == "none":
         return ((),)
+    pos = range(nframes + 1)
+    if mode in ("pairs", "multi"):  # SEVERAL pings with distinct payloads (the 'pings' family), positions may coincide
+        many: List[Tuple[Tuple[int, bytes], ...]] = []
+        if mode == "multi":
+            many += [((p, b"p"),) for p in pos]
+        many += [((p, b"p"), (q, b"q")) for p in pos for q in pos if p <= q]
+        if mode == "multi":
+            many += [((p, b"p"), (q, b""), (r, b"r")) for p in pos for q in pos for r in pos if p <= q <= r]
+        return tuple(many)
     pays = {"p": (b"p",), "both": (b"", b"p"), "two": (b"", b"p")}[mode]
     out: List[Tuple[Tuple[int, bytes], ...]] = [()]
     for p in range(nframes + 1):
@@ -193,6 +221,9 @@ def plan(params: tuple, pick: Callable[[int, str], int]) -> dict:
             items.append(("frame", p, frames[p][1]))
     case = {"msgs": msgs, "deflate": deflate, "payloads": payloads, "frames": frames, "cuts": tuple(cuts_taken),
             "pings": pings, "items": items, "family": family}
+    if family == "pings":  # the client's Close travels in the same byte stream: pings next to it share its read
+        items.append(("close", 1000, close_frame(1000)))
+        case["close_in_stream"] = True
     if family == "sched":
         case["segs"] = [it[2] for it in items]
         case["split"] = "per-frame"
@@ -381,6 +412,8 @@ def build(params: tuple, pick: Callable[[int, str], int]) -> tuple:
                   ("cmd", 0, "headers", 1, ws_h2_headers(b"/w", extra), False)]
         client += [("cmd", 0, "ws_data", 1, s) for s in case["segs"]]
         tail = [("cmd", 0, "ws_data", 1, closing)]
+    if case.get("close_in_stream"):
+        tail = []
     sched = family == "sched"
     sources = [("client", client + tail)]
     sc = {"level": "conn", "conns": {0: conn}, "client_factory": make_guard_client, "apps": {"websocket": APP},
@@ -405,6 +438,8 @@ def scenarios(tier: str) -> List[Any]:
                     out.append(("ping", e, c, d, (m,), 2, "all", "p"))
             for ms in ((T("abcde"), B(b"\x00"), T("a")), (T("a"), B(b"abcd"), T("é"))):
                 out.append(("triple", e, c, d, ms, 1, "all", "none"))
+            for ms, k, cutmode in (PINGS_SPECS if full else PINGS_SPECS[1:2]):
+                out.append(("pings", e, c, d, ms, k, cutmode, "pairs"))
         for e in ENGINES:
             for c in CARRIERS:
                 for ms in ((T("a"), B(b"abcd")), (T("abcd"), B(b"abcde"), T("a"))):
@@ -428,6 +463,8 @@ def scenarios(tier: str) -> List[Any]:
                 out.append(("ping", e, c, d, (m,), 2, "all", "two"))
             for ms in itertools.product(R4, repeat=3):
                 out.append(("triple", e, c, d, ms, 2, "mid", "none"))
+            for ms, k, cutmode in PINGS_SPECS + PINGS_SPECS_THOROUGH:
+                out.append(("pings", e, c, d, ms, 2, "mid", "multi"))
         for e in ENGINES:
             for c in CARRIERS:
                 for d in (False, True):
@@ -611,7 +648,7 @@ def judge_conn(rec: Any, insts: List[Any], family: str, carrier: str, deflate: b
     # what the client saw
     echo_exp = [("text", m[1]) if m[0] == "t" else ("bytes", bytes(m[1])) for m in exp_msgs]
     echo_got = list(wsp.messages) if wsp is not None else []
-    if over is None and family != "sched":
+    if over is None and family not in ("sched", "pings"):  # (pings: the Close shares a read with the messages)
         if echo_got != echo_exp:
             out.append(V("echo", f"{tag2}:mismatch",
                          _short(f"expected {echo_exp!r} got {echo_got!r}", len(echo_got), len(echo_exp))))
